@@ -40,6 +40,12 @@ def make_scratch():
 # compiler's complaint about the temporary that held them): not hoisted
 INLINE_ARGS = set()
 
+# set when the tree did not build with package net behind verifsim/snet in
+# transport/{tcp,ipc,tlstcp} (it uses something the shim does not export): the
+# tree is then instrumented without that rewrite and the scenarios fall back to
+# the stand-in stream transports
+NO_NETSHIM = [False]
+
 def prepare_tree(scratch, instrument=True):
     """copy /repo's working tree, add the seam packages and hook files, instrument."""
     dst = os.path.join(scratch, "repo")
@@ -58,7 +64,8 @@ def prepare_tree(scratch, instrument=True):
     if instrument:
         ins = ensure_instrumenter()
         r = subprocess.run([ins, dst], stdout=subprocess.PIPE, stderr=subprocess.PIPE, text=True,
-                           env=dict(os.environ, VERIF_INLINE_ARGS=",".join(sorted(INLINE_ARGS))))
+                           env=dict(os.environ, VERIF_INLINE_ARGS=",".join(sorted(INLINE_ARGS)),
+                                    VERIF_NO_NETSHIM="1" if NO_NETSHIM[0] else ""))
         if r.returncode != 0:
             raise BuildError("instrumenter failed:\n" + r.stdout + r.stderr)
         try:
@@ -105,6 +112,11 @@ def build_harness(scratch, race=False, tags="verifsim"):
             INLINE_ARGS.update(new)
             prepare_tree(scratch)
             return build_harness(scratch, race=race, tags=tags)
+        if not NO_NETSHIM[0] and _re.search(r"verifsim/(snet|stls)|/repo/transport/(tcp|ipc|tlstcp)/", r.stdout):
+            NO_NETSHIM[0] = True
+            sys.stderr.write("note: the tree does not build with package net behind verifsim/snet; falling back to the stand-in stream transports\n")
+            prepare_tree(scratch)
+            return build_harness(scratch, race=race, tags=tags)
         raise BuildError("harness build failed:\n" + r.stdout[-6000:])
     return binp
 
@@ -112,6 +124,8 @@ def run_worker(binp, env_extra, outfile, timeout=None):
     env = goenv()
     env.update(env_extra)
     env["VERIF_OUT"] = outfile
+    if NO_NETSHIM[0]:
+        env["VERIF_NO_NETSHIM"] = "1"
     # the worker's stdout/stderr go to a file, never to a pipe: a goroutine dump
     # (watchdog, fatal error) is larger than a pipe buffer and nobody reads
     # the pipe before the process has exited
